@@ -78,7 +78,13 @@ def scope_cases(draw, depth=4):
             defs = []
             for _ in range(draw(st.integers(1, 3))):
                 c = draw(st.integers(0, 5))
-                if c == 0 and gnames:
+                if c == 0 and len(gnames) >= 2 and draw(st.booleans()):
+                    # several global names from one value
+                    counter[0] += 1
+                    defs.append(["global", list(gnames[:2]), [
+                        "const", "('g%da', 'g%db')" % (counter[0],
+                                                       counter[0])]])
+                elif c == 0 and gnames:
                     g = draw(st.sampled_from(gnames + gnames + names))
                     defs.append(["global", [g], val()])
                 elif c == 1 and len(names) >= 2:
